@@ -33,7 +33,7 @@ pub broadcast proof fn lemma_shl1(x: u128)
     requires x < 0x8000_0000_0000_0000_0000_0000_0000_0000u128
     ensures #[trigger] (x << 1) == 2 * x
 {
-    assert(x < 0x8000_0000_0000_0000_0000_0000_0000_0000u128 ==> (x << 1) == mul(2, x)) by (bit_vector);
+    assert(x < 0x8000_0000_0000_0000_0000_0000_0000_0000u128 ==> (x << 1) == vstd::prelude::mul(2, x)) by (bit_vector);
 }
 
 /// the value q*d + r with 0 <= r < d has floor q, remainder r, and is positive iff q >= 0 (for r > 0)
